@@ -86,9 +86,12 @@ def coq_project():
         sh('coq_makefile -f _CoqProject -o Makefile', cwd=COQ, check=True)
 
 
-def coq_make(targets, timeout=1500, keep_going=True):
+def coq_make(targets, timeout=1500, keep_going=True, remove_first=()):
     """make the given .vo targets (paths relative to coq/); full .vo build, never -vos"""
     with Lock('coq'):
+        for f in remove_first:
+            if os.path.exists(f):
+                os.remove(f)
         coq_project()
         # every coqc is bounded: a diverging tactic must not hold the shared build lock
         cmd = ['make', '-j%d' % NCPU, 'COQC=timeout 900 coqc'] + (['-k'] if keep_going else []) + list(targets)
@@ -179,9 +182,8 @@ def proof_leg(prop_file, areas=(), thorough=None):
     res['obligations'] = len(names)
     target = 'theories/%s.vo' % prop_file
     vo = os.path.join(COQ, target)
-    if os.path.exists(vo):
-        os.remove(vo)  # always re-check the property file itself (prints the assumptions)
-    rc, out, err = coq_make([target])
+    # always re-check the property file itself (prints the assumptions); removed under the build lock
+    rc, out, err = coq_make([target], remove_first=[vo])
     res['checker_cmd'] = 'python3 tools/src2coq.py %s && cd coq && coq_makefile -f _CoqProject -o Makefile && make -k -j%d %s' % (
         ' '.join(areas), NCPU, target)
     log = out + '\n' + err
